@@ -402,14 +402,14 @@ PROPS['C01'] = dict(
 )
 
 PROPS['C04'] = sl_entry('C04', lambda c: 'crash' in c.tags,
-    "plus `crashpt` lines (file level): the real ShmWriter::new + first write is killed at EVERY hook point / shared access (k = 0..23) over 9 prior file states {missing, empty, garbage, wiped, valid with even / odd / near-wrap generation} (+ layout versions 3 / 65535, and restarts over a file last modified two hours ago `@old` / with a non-UTF-8 name `@bin`), with a real reader attached beforehand when the segment was usable; then a restarted writer publishes; observed: what the dead writer left, whether it can be opened, inode/length, what the attached and a fresh reader obtain. non-trivial = the writer was killed (tag crash)",
+    "plus `crashpt` lines (file level): the real ShmWriter::new + first write is killed at EVERY hook point / shared access (k = 0..23) over 9 prior file states {missing, empty, garbage, wiped, valid with even / odd / near-wrap generation} + 3 FOREIGN priors {a 72-byte segment of another layout revision: second magic word wrong, plausible size / version / even, odd, near-wrap generation, and a payload} (+ layout versions 3 / 65535, and restarts over a file last modified two hours ago `@old` / with a non-UTF-8 name `@bin`), with a real reader attached beforehand when the segment was usable; then a restarted writer publishes; observed: what the dead writer left, whether it can be opened, inode/length, what the attached reader and a FRESH reader obtain both between the crash and the restart and after it. New clause (nobody reads what was never published): a fresh client that manages to attach after the crash and before the restart obtains the empty record, the record being published, or - over a usable prior only - the prior's record, never anything else (e.g. a foreign payload under a header the dead writer had just made valid). non-trivial = the writer was killed (tag crash)",
     gens=lambda seed, th: [['slgen', seed, 30000 if th else 1200], ['crashgrid'], ['slxgen', 'all'] if th else ['slxgen'], ['hdr-seg', seed, 20000 if th else 1500]],
     relevant=lambda c: kind(c) in ('sl', 'crashpt', 'slx', 'seg'),
     also=['C16'],
     exhaustive=True,
     lean_modules=['ClockBound.Properties.C04', 'ClockBound.Properties.C02', 'ClockBound.Properties.C03', 'ClockBound.Properties.C03b'],
     technique='Lean 4 proofs: (a),(b) the C02/C03 invariants are proved over a step relation that contains writer death at any access and restart; (c),(d) file-level model of ShmWriter::new + first write as an event script with death at every event, all prior file states + exhaustive crash-point sweep of the real code and scheduler runs with kills',
-    level_text='(a),(b): C02.no_mixture_general, C03.accepted_monotone and C03.catches_up quantify over SL.Step, which includes wKill (death between any two shared accesses) and wNew (take-over by a restarted writer), so attached readers keep getting complete records in publication order and see the new writer\'s publications without reopening. (c),(d): C04.usable_never_wiped / usable_preserved (a usable segment is never wiped, keeps inode-independent length and stays usable at every crash point), restart_repairs / recreated_layout (from ANY file state and ANY crash point, restart + one publication yields a usable 72-byte-or-taken-over segment holding exactly the record, generation even non-zero), unusable_until_first_publication_starts (nobody can attach to a half-initialised file), attached_reader_across_restart. All 216 crash-point x prior combinations are run on the real code every time.',
+    level_text='(a),(b): C02.no_mixture_general, C03.accepted_monotone and C03.catches_up quantify over SL.Step, which includes wKill (death between any two shared accesses) and wNew (take-over by a restarted writer), so attached readers keep getting complete records in publication order and see the new writer\'s publications without reopening. (c),(d): C04.usable_never_wiped / usable_preserved (a usable segment is never wiped, keeps inode-independent length and stays usable at every crash point), restart_repairs / recreated_layout (from ANY file state and ANY crash point, restart + one publication yields a usable 72-byte-or-taken-over segment holding exactly the record, generation even non-zero), unusable_until_first_publication_starts (nobody can attach to a half-initialised file), attached_reader_across_restart, fresh_after_crash / fresh1_after_crash (from ANY file, incl. a foreign-revision segment, and ANY crash point a client attaching before the restart gets the empty record, the record being published or the record of a usable prior - never an unpublished payload). All 336 crash-point x prior combinations (14 priors x 24, + 60 @old/@bin variants) are run on the real code every time.',
     level_note='Partial: real process death, page cache and File::create truncate-under-mapping (SIGBUS) are modelled abstractly (a reader can only be attached to a usable file, which is proved never to be truncated); death is modelled between hook events.',
 )
 
